@@ -45,17 +45,32 @@ func urlContactable(u string) bool {
 func (sc *RevScenario) buildViews(obs *RevObs, co *CallObs) []*CertView {
 	w := co.World
 	reg := map[string]*CRLSpec{}
+	// provenance: which URLs handed out a CRL with these exact bytes (two
+	// distribution points may legitimately serve byte-identical CRLs)
+	origins := map[string]map[string]bool{}
+	addOrigin := func(sp *CRLSpec) {
+		if sp == nil || sp.Origin == "" {
+			return
+		}
+		if origins[sp.Hash] == nil {
+			origins[sp.Hash] = map[string]bool{}
+		}
+		origins[sp.Hash][sp.Origin] = true
+	}
 	for k, v := range w.crlReg {
 		reg[k] = v
+		addOrigin(v)
 	}
 	if w.CloneOf != nil {
 		for k, v := range w.CloneOf.crlReg {
 			reg[k] = v
+			addOrigin(v)
 		}
 	}
 	for _, x := range obs.Net.All() {
 		if cs, ok := x.Rec.Served.(*CRLServed); ok && cs != nil {
 			reg[cs.Spec.Hash] = cs.Spec
+			addOrigin(cs.Spec)
 		}
 	}
 	fetchByURL := map[string][]*FetchRec{}
@@ -65,6 +80,7 @@ func (sc *RevScenario) buildViews(obs *RevObs, co *CallObs) []*CertView {
 		}
 		for _, s := range f.Specs {
 			reg[s.Hash] = s
+			addOrigin(s)
 		}
 	}
 	var views []*CertView
@@ -96,7 +112,18 @@ func (sc *RevScenario) buildViews(obs *RevObs, co *CallObs) []*CertView {
 		for _, s := range cp.CRL {
 			sv := &SrcView{URL: s.URL, Desc: fmt.Sprintf("base=%s delta=%v fault=%s url=%s", crlPlanDesc(&s.Base), s.HasDelta, s.BaseFault, urlKindNames[s.URLKind])}
 			if v.IsRoot {
-				sv.Contacted = s.XBase[co.Rep].Rec.Begun || len(fetchByURL[s.URL]) > 0
+				// a Fetch call for this URL string counts against the root only if
+				// no other certificate of the chain names the same string (hostile
+				// URL strings such as "" repeat)
+				shared := false
+				for _, ocp := range w.Certs[:n-1] {
+					for _, os := range ocp.CRL {
+						if os.URL == s.URL {
+							shared = true
+						}
+					}
+				}
+				sv.Contacted = s.XBase[co.Rep].Rec.Begun || (!shared && len(fetchByURL[s.URL]) > 0)
 				sv.Alts = []string{ClNotContacted}
 				v.CRL = append(v.CRL, sv)
 				continue
@@ -123,7 +150,13 @@ func (sc *RevScenario) buildViews(obs *RevObs, co *CallObs) []*CertView {
 					if base == nil {
 						sv.Vacuous = true
 					}
-					if !sv.Vacuous {
+					if !sv.Vacuous && len(origins[base.Hash]) > 0 && !origins[base.Hash][s.URL] {
+						// provenance: evidence for this distribution point must have
+						// been obtained from it (now, or earlier and kept under its
+						// URL), not from another URL that merely looks similar
+						sv.Alts = []string{ClNone}
+						sv.Desc += " [delivered bundle was obtained from " + base.Origin + ", not from this distribution point]"
+					} else if !sv.Vacuous {
 						sv.Alts = crlAlts(base, delta, cp.Freshest, hasCRLSign, w.HasST, w.ST, fr.TEnd)
 						if sv.Alts == nil {
 							sv.Vacuous = true
@@ -162,6 +195,9 @@ func (sc *RevScenario) buildViews(obs *RevObs, co *CallObs) []*CertView {
 					for j := range urls {
 						xd := s.XDelta[j][co.Rep]
 						if !xd.Rec.Begun {
+							if !urlContactable(urls[j]) {
+								continue // a non-HTTP location is skipped without any exchange
+							}
 							break
 						}
 						okd, atd := deliveredBody(xd)
